@@ -184,12 +184,13 @@ func genCP(r *rand.Rand) (int, bool, []int, []patch) {
 
 // ------------------------------------------------------------------------------------------------ cd
 
-type kv struct{ k, v int }
+// kv is one manifest entry: package k, alias a (0 = the package's own name, a > 0 = entry "al<a>": "npm:pkg<k>@…"), version v.
+type kv struct{ k, a, v int }
 
 func encReqs(rs []kv) string {
 	xs := make([]string, len(rs))
 	for i, r := range rs {
-		xs[i] = fmt.Sprintf("%d:%d", r.k, r.v)
+		xs[i] = fmt.Sprintf("%d.%d:%d", r.k, r.a, r.v)
 	}
 	return hx.Join(xs, ",")
 }
@@ -200,10 +201,12 @@ func decReqs(s string) []kv {
 	}
 	var out []kv
 	for _, e := range strings.Split(s, ",") {
-		a, b, _ := strings.Cut(e, ":")
-		k, _ := strconv.Atoi(a)
+		ka, b, _ := strings.Cut(e, ":")
+		ks, as, _ := strings.Cut(ka, ".")
+		k, _ := strconv.Atoi(ks)
+		a, _ := strconv.Atoi(as)
 		v, _ := strconv.Atoi(b)
-		out = append(out, kv{k, v})
+		out = append(out, kv{k, a, v})
 	}
 	return out
 }
@@ -215,7 +218,11 @@ func npmManifest(dir string, reqs []kv) guidedremediation.VerifManifest {
 		if i > 0 {
 			sb.WriteString(", ")
 		}
-		fmt.Fprintf(&sb, "\"pkg%d\": \"1.0.%d\"", r.k, r.v)
+		if r.a == 0 {
+			fmt.Fprintf(&sb, "\"pkg%d\": \"1.0.%d\"", r.k, r.v)
+		} else {
+			fmt.Fprintf(&sb, "\"al%d\": \"npm:pkg%d@1.0.%d\"", r.a, r.k, r.v)
+		}
 	}
 	sb.WriteString("}}\n")
 	must(os.WriteFile(filepath.Join(dir, "package.json"), []byte(sb.String()), 0o644))
@@ -252,7 +259,11 @@ func runCD(oldV, newV []int, oldR, newR []kv) string {
 			if u.VersionFrom != "" {
 				f = strings.TrimPrefix(u.VersionFrom, "1.0.")
 			}
-			ups = append(ups, fmt.Sprintf("%d:%s:%s", n, f, strings.TrimPrefix(u.VersionTo, "1.0.")))
+			a := 0
+			if ka, ok := u.Type.GetAttr(dep.KnownAs); ok {
+				a, _ = strconv.Atoi(strings.TrimPrefix(ka, "al"))
+			}
+			ups = append(ups, fmt.Sprintf("%d.%d:%s:%s", n, a, f, strings.TrimPrefix(u.VersionTo, "1.0.")))
 		}
 		sort.Strings(ups)
 		slices.Sort(q.fixed)
@@ -285,15 +296,28 @@ func genCD(r *rand.Rand) ([]int, []int, []kv, []kv) {
 			continue
 		}
 		v := r.Intn(3)
-		oldR = append(oldR, kv{k, v})
+		oldR = append(oldR, kv{k, 0, v})
 		nv := v
 		if r.Intn(2) == 0 {
 			nv = 3 + r.Intn(3)
 		}
-		newR = append(newR, kv{k, nv})
+		newR = append(newR, kv{k, 0, nv})
+		// the same package once or twice more through npm: aliases, at the identical or another range,
+		// moved to the identical or another new range
+		for a := 1; a <= 2 && r.Intn(3) == 0; a++ {
+			av, anv := v, nv
+			if r.Intn(3) == 0 {
+				av = r.Intn(3)
+			}
+			if r.Intn(3) == 0 {
+				anv = []int{av, 3 + r.Intn(3)}[r.Intn(2)]
+			}
+			oldR = append(oldR, kv{k, 10*k + a, av})
+			newR = append(newR, kv{k, 10*k + a, anv})
+		}
 	}
 	if r.Intn(6) == 0 { // a requirement only the new manifest has
-		newR = append(newR, kv{9, 1})
+		newR = append(newR, kv{9, 0, 1})
 	}
 	return oldV, newV, oldR, newR
 }
@@ -301,9 +325,10 @@ func genCD(r *rand.Rand) ([]int, []int, []kv, []kv) {
 // ------------------------------------------------------------------------------------------------ e2e
 
 type rootDep struct {
-	Name string
-	Req  string
-	Dev  bool
+	Name  string
+	Req   string
+	Dev   bool
+	Alias string // npm only: the entry is "Alias": "npm:Name@Req"
 }
 type e2eCase struct {
 	Eco         string // "n" npm / relax, "m" Maven / override
@@ -339,6 +364,9 @@ func writeRoot(c e2eCase, dir string) string {
 		var deps, dev []string
 		for _, d := range c.Root {
 			e := fmt.Sprintf("    %q: %q", d.Name, d.Req)
+			if d.Alias != "" {
+				e = fmt.Sprintf("    %q: %q", d.Alias, "npm:"+d.Name+"@"+d.Req)
+			}
 			if d.Dev {
 				dev = append(dev, e)
 			} else {
@@ -366,7 +394,22 @@ func writeRoot(c e2eCase, dir string) string {
 	return p
 }
 
-func readReqs(c e2eCase, path string) (string, error) {
+// entry is one manifest entry as Read reports it: package name, what else identifies the entry (npm: the
+// alias; Maven: origin|type|classifier), and the requirement.
+type entry struct{ name, disc, ver string }
+
+func typeDisc(c e2eCase, t dep.Type) string {
+	if c.Eco == "n" {
+		ka, _ := t.GetAttr(dep.KnownAs)
+		return ka
+	}
+	o, _ := t.GetAttr(dep.MavenDependencyOrigin)
+	ty, _ := t.GetAttr(dep.MavenArtifactType)
+	cl, _ := t.GetAttr(dep.MavenClassifier)
+	return o + "|" + ty + "|" + cl
+}
+
+func readReqs(c e2eCase, path string) ([]entry, error) {
 	var rw guidedremediation.VerifReadWriter
 	var err error
 	if c.Eco == "n" {
@@ -377,15 +420,40 @@ func readReqs(c e2eCase, path string) (string, error) {
 	must(err)
 	m, err := rw.Read(filepath.Base(path), scalibrfs.DirFS(filepath.Dir(path)))
 	if err != nil {
-		return "", err
+		return nil, err
 	}
-	var xs []string
+	var xs []entry
 	for _, r := range m.Requirements() {
-		o, _ := r.Type.GetAttr(dep.MavenDependencyOrigin)
-		xs = append(xs, r.Name+"|"+o+"|"+r.Version)
+		xs = append(xs, entry{r.Name, typeDisc(c, r.Type), r.Version})
 	}
-	sort.Strings(xs)
-	return strings.Join(xs, ","), nil
+	sort.Slice(xs, func(i, j int) bool {
+		return xs[i].name+"\x00"+xs[i].disc+"\x00"+xs[i].ver < xs[j].name+"\x00"+xs[j].disc+"\x00"+xs[j].ver
+	})
+	return xs, nil
+}
+
+// numbering maps the strings of one case to small naturals for the driver (0 = "no alias").
+type numbering struct {
+	names, discs, vers map[string]int
+}
+
+func (n *numbering) id(m map[string]int, s string, zeroEmpty bool) int {
+	if zeroEmpty && (s == "" || s == "||") {
+		return 0
+	}
+	if v, ok := m[s]; ok {
+		return v
+	}
+	m[s] = len(m) + 1
+	return m[s]
+}
+
+func (n *numbering) entries(xs []entry) string {
+	out := make([]string, len(xs))
+	for i, e := range xs {
+		out[i] = fmt.Sprintf("%d.%d:%d", n.id(n.names, e.name, false), n.id(n.discs, e.disc, true), n.id(n.vers, e.ver, false))
+	}
+	return hx.Join(out, ",")
 }
 
 func idNums(vs []result.Vuln) []int {
@@ -461,8 +529,20 @@ func runE2E(c e2eCase) string {
 		for _, e := range c.Explicit {
 			expl = append(expl, vnum(e))
 		}
-		return fmt.Sprintf("r=ok k=%d explicit=%s orig=%s np=%d fixed=%s intro=%s after=%s unfix=%s reqsame=%s ups=%d", c.MaxUpgrades, dots(expl), dots(idNums(res1.Vulnerabilities)), len(res1.Patches),
-			dots(fixed), dots(intro), dots(idNums(res2.Vulnerabilities)), dots(unfix), hx.B(before == after1), nups)
+		nb := &numbering{map[string]int{}, map[string]int{}, map[string]int{}}
+		rb, ra := nb.entries(before), nb.entries(after1)
+		var ru []string
+		for _, p := range res1.Patches {
+			for _, u := range p.PackageUpdates {
+				f := "-"
+				if u.VersionFrom != "" {
+					f = strconv.Itoa(nb.id(nb.vers, u.VersionFrom, false))
+				}
+				ru = append(ru, fmt.Sprintf("%d.%d:%s:%d", nb.id(nb.names, u.Name, false), nb.id(nb.discs, typeDisc(c, u.Type), true), f, nb.id(nb.vers, u.VersionTo, false)))
+			}
+		}
+		return fmt.Sprintf("r=ok k=%d explicit=%s orig=%s np=%d fixed=%s intro=%s after=%s unfix=%s reqsame=%s ups=%d rb=%s ra=%s ru=%s", c.MaxUpgrades, dots(expl), dots(idNums(res1.Vulnerabilities)), len(res1.Patches),
+			dots(fixed), dots(intro), dots(idNums(res2.Vulnerabilities)), dots(unfix), hx.B(slices.Equal(before, after1)), nups, rb, ra, hx.Join(ru, ","))
 	})
 }
 
@@ -516,6 +596,25 @@ func genE2E(r *rand.Rand) e2eCase {
 	}
 	if r.Intn(3) == 0 || len(c.Root) == 0 {
 		c.Root = append(c.Root, rootDep{Name: tee, Req: req(teeVers[0])})
+	}
+	if c.Eco == "n" && r.Intn(2) == 0 {
+		// the same registry package through one or two more entries (npm: aliases), at the identical range or another one
+		base := c.Root[r.Intn(len(c.Root))]
+		if !base.Dev {
+			var vers []string
+			for _, p := range c.Pkgs {
+				if p.Name == base.Name {
+					vers = p.Versions
+				}
+			}
+			for i, n := 0, 1+r.Intn(2); i < n; i++ {
+				a := rootDep{Name: base.Name, Req: base.Req, Alias: fmt.Sprintf("%s-legacy%d", strings.Trim(strings.ReplaceAll(base.Name, "/", "-"), "@"), i+1)}
+				if r.Intn(3) == 0 && len(vers) > 0 {
+					a.Req = req(vers[r.Intn(1+len(vers)/3)])
+				}
+				c.Root = append(c.Root, a)
+			}
+		}
 	}
 	// vulnerabilities: mostly chains on one package (fixed at rank f, the next one introduced at f), so that fixing one
 	// can introduce another; the base versions are low, so the first link usually affects what is resolved
